@@ -565,21 +565,17 @@ class EnsembleEvaluator:
             )
             if apply_to_objectives is not None:
                 if objective_weights is None:
-                    objective_weights = np.ones(
-                        (
-                            self._config.objectives.weights.size,
-                            self._config.realizations.weights.size,
-                        ),
+                    objective_weights = np.tile(
+                        self._config.realizations.weights,
+                        (self._config.objectives.weights.size, 1),
                     )
                 objective_weights[apply_to_objectives, :] = weights
             if constraint_filters is not None and apply_to_constraints is not None:
                 assert self._config.nonlinear_constraints is not None
                 if constraint_weights is None:
-                    constraint_weights = np.ones(
-                        (
-                            self._config.nonlinear_constraints.lower_bounds.size,
-                            self._config.realizations.weights.size,
-                        ),
+                    constraint_weights = np.tile(
+                        self._config.realizations.weights,
+                        (self._config.nonlinear_constraints.lower_bounds.size, 1),
                     )
                 constraint_weights[apply_to_constraints, :] = weights
         return objective_weights, constraint_weights
